@@ -34,6 +34,8 @@ func c09Run(s *sim.Sim, p *sim.Params) {
 		c09Futures(s, p)
 	case mode < 5:
 		c09Sequenced(s, p)
+	case mode == 5:
+		c09PooledVM(s, p)
 	default:
 		c09Programs(s, p)
 	}
